@@ -136,9 +136,13 @@ FILE *sim_fopen(const char *path, const char *mode)
     if (nodes[i].isdir) {
         /* fopen("r") of a directory succeeds on Linux, reads fail with EISDIR: model as empty unreadable stream */
         tr_printf("fopen %.80s (directory)", path);
-        return simfd_cookie_stream("", 0, 0, 0);
+        return simfd_cookie_stream_unreadable();
     }
     if (!(nodes[i].mode & 0400)) { simfs_fopen_failed++; errno = EACCES; tr_printf("fopen %.80s -> EACCES", path); return NULL; }
+    if (f >= 0 && F_OUT(f) == FO_FULL && F_PARAM(f) == 1) {     /* scripted: the open succeeds, no byte can be read */
+        tr_printf("fopen %.80s (unreadable)", path);
+        return simfd_cookie_stream_unreadable();
+    }
     tr_printf("fopen %.80s len=%zu", path, nodes[i].len);
     return simfd_cookie_stream(nodes[i].data, nodes[i].len, 1, 0);
 }
